@@ -172,6 +172,8 @@ def r_absent(ctx, v):
 
 def c04(ctx, v):
     fixture_once(ctx, ["R-UNSAFEKINDS", "R-HINT", "R-ORDERPANIC"])
+    if B:
+        B.r_assert(ctx, v)
     I.r_lending(ctx, v)
     D.r_newtypeord(ctx, v)
     if B:
@@ -308,6 +310,7 @@ def c15(ctx, v):
     if v.config != "serde":
         return
     M.r_serde(ctx, v)
+    M.r_hint(ctx, v)   # "never panics": the length a sequence announces is input, not a size
     # "gives a queue equal to the original": equality is the map's; "never panics": the reader's own arithmetic / accesses
     D.r_eqfoot(ctx, v)
     if B:
